@@ -13,7 +13,7 @@ RULE = (
     'width 1-3 x other-event width 1-2 x predicates {none, x = 0, x = 1, x = @ALIAS.x for an alias in scope} x time bound {none, 2 s}; '
     'each property and each member of canonical_form(property) is evaluated by a reference trace semantics on ALL timed traces up '
     'to a length bound over the property\'s own topics (payload 0/1, gaps 1/3), under two readings of scope re-activation; a '
-    'violation is a trace on which "P holds" differs from "all members hold" under BOTH readings. Non-trivial: the canonical form has '
+    'plus sampled traces of length 5-8 drawn from the same Hypothesis tape; a violation is a trace on which "P holds" differs from "all members hold" under BOTH readings. Non-trivial: the canonical form has '
     '>= 2 members and the trace contains matches of at least two different alternatives of the split event; distinct by (property, trace).'
 )
 ASSUMPTIONS = [
@@ -93,7 +93,14 @@ def gen_property(ch):
         beh = event(B, ch.int(1, 3), vis2, ch.pick([None, 'each']))
     bound = ch.pick([None, ('2', 's'), ('2', 's'), ('2000', 'ms')])
     m = ('prop', (), ('scope', sk, act, term), ('pat', pk, trig, beh, bound))
-    return {'m': m, 'text': mast.render(m)}
+    # the rest of the tape drives longer sampled traces (length 5..8) over the property's own alphabet
+    tops = topics_of(m)
+    alphabet = [(g, t, x) for t in tops for x in (0, 1) for g in (1, 3)]
+    long_traces = []
+    while not ch.exhausted and len(long_traces) < 64:
+        n = ch.int(5, 8)
+        long_traces.append([list(ch.pick(alphabet)) for _ in range(n)])
+    return {'m': m, 'text': mast.render(m), 'long_traces': long_traces[:-1]}
 
 
 def topics_of(m):
@@ -141,7 +148,7 @@ def check_trace(inp, compiled, items):
     if len(bad) == 2:
         w, pt = bad['R1']
         raise Violation(
-            'trace', f'split-changes-meaning:{p.pattern.pattern_type.name}:{p.scope.scope_type.name}', dict(inp, trace=[list(i) for i in items]),
+            'trace', f'split-changes-meaning:{p.pattern.pattern_type.name}:{p.scope.scope_type.name}', dict({k: v for k, v in inp.items() if k != 'long_traces'}, trace=[list(i) for i in items]),
             f'{inp["text"]!r} {"holds" if w else "is violated"} on the trace {[(t, tp, m["x"]) for t, tp, m, _ in trace]} but its canonical form '
             f'{[str(q) for q in members]} {"holds" if pt else "is violated"} (under both readings of scope re-activation)',
         )  # fmt: skip
@@ -197,6 +204,14 @@ def shard(ctx, shard_no, nshards, n_props, maxlen):
                 rd += 1
             if len(members) >= 2 and len({t for _g, t, _x in items if t in alts}) >= 2:
                 nt += 1
+        for items in inp.get('long_traces', ()):
+            bad = check_trace(inp, compiled, [tuple(i) for i in items])
+            n += 1
+            ctx.count('long-traces')
+            if bad:
+                rd += 1
+            if len(members) >= 2 and len({t for _g, t, _x in items if t in alts}) >= 2:
+                nt += 1
         seen_props.add(inp['text'])
         ctx.evaluations += n
         ctx.count('traces', n)
@@ -211,7 +226,7 @@ def shard(ctx, shard_no, nshards, n_props, maxlen):
             lst.append({'property': inp['text'], 'canonical_form': [str(q) for q in members], 'traces_checked': n})
 
     with ctx.timed('exhaustive-traces'):
-        core.run_hypothesis(ctx, 'properties', from_tape(gen_property, 96), body, n_props)
+        core.run_hypothesis(ctx, 'properties', from_tape(gen_property, 640), body, n_props)
     ctx.exhaustive[f'all-traces-up-to-length-{maxlen}-per-property'] = True
 
 
